@@ -57,7 +57,17 @@ impl ExtendedPublicKey {
     }
 
     pub fn from_string_impl(xpub_string: &str) -> Result<Self, BSVErrors> {
-        let mut cursor = Cursor::new(bs58::decode(xpub_string).into_vec()?);
+        let decoded = bs58::decode(xpub_string).into_vec()?;
+
+        // 78 byte payload + 4 byte checksum
+        if decoded.len() != 82 {
+            return Err(BSVErrors::GenericError("An extended public key must decode to exactly 82 bytes".into()));
+        }
+        if Hash::sha_256d(&decoded[0..78]).to_bytes()[0..4] != decoded[78..82] {
+            return Err(BSVErrors::GenericError("Extended public key checksum does not match".into()));
+        }
+
+        let mut cursor = Cursor::new(decoded);
 
         // Skip the first 4 bytes "xprv"
         cursor.set_position(4);
